@@ -25,7 +25,7 @@ theorem grid2Positional_ok : grid2Positional = true := by decide
 
 def triSpec : Spec :=
   { decl := ["l_x", "l_y", "shape", "sites", "n_sites", "coord_num", "open_x"],
-    flat := ["l_x", "l_y", "shape", "sites", "n_sites", "coord_num"],
+    flat := ["l_x", "l_y", "shape", "sites", "n_sites", "coord_num", "open_x"],
     computed := ["shape", "n_sites", "sites"],
     reads := ["l_y", "l_x"],
     hashed := ["l_x", "l_y", "shape", "sites", "coord_num"] }
